@@ -15,6 +15,8 @@ pub struct Post {
     pub amount: Option<(Decimal, &'static str)>,
     /// (is_total, value, commodity)
     pub cost: Option<(bool, Decimal, &'static str)>,
+    /// lot price `{v c}` / `{{v c}}`: (is_total, value, commodity)
+    pub lot: Option<(bool, Decimal, &'static str)>,
     /// `= v [c]`
     pub assertion: Option<(Decimal, Option<&'static str>)>,
 }
@@ -33,6 +35,13 @@ pub fn render(txns: &[Txn], dp2: &[&'static str]) -> String {
             s.push_str(p.account);
             if let Some((v, c)) = p.amount {
                 s.push_str(&format!("    {} {}", v, c));
+                if let Some((total, lv, lc)) = p.lot {
+                    if total {
+                        s.push_str(&format!(" {{{{{} {}}}}}", lv, lc));
+                    } else {
+                        s.push_str(&format!(" {{{} {}}}", lv, lc));
+                    }
+                }
                 if let Some((total, cv, cc)) = p.cost {
                     s.push_str(&format!(" {} {} {}", if total { "@@" } else { "@" }, cv, cc));
                 }
@@ -126,7 +135,16 @@ pub fn oracle(txns: &[Txn], dp2: &[&'static str]) -> Verdict {
                             return Verdict::Reject("false balance assertion");
                         }
                     }
-                    match p.cost {
+                    // every written exchange is validated; the lot price, else the cost, values the posting
+                    for (_, xv, xc) in [p.cost, p.lot].into_iter().flatten() {
+                        if xv.is_zero() {
+                            return Verdict::Reject("zero rate");
+                        }
+                        if xc == c {
+                            return Verdict::Reject("exchange in own commodity");
+                        }
+                    }
+                    match p.lot.or(p.cost) {
                         None => *total.entry(c).or_default() += v,
                         Some((is_total, cv, cc)) => {
                             if cv.is_zero() {
@@ -279,33 +297,40 @@ pub fn sweep(thorough: bool, panic_only: bool) -> (u64, Vec<(String, String)>) {
     let mut shapes: Vec<Post> = Vec::new();
     for v in &values {
         for c in comms {
-            shapes.push(Post { account: "", amount: Some((*v, c)), cost: None, assertion: None });
+            shapes.push(Post { account: "", amount: Some((*v, c)), cost: None, lot: None, assertion: None });
         }
     }
     // costs
     for v in [d("2"), d("-2"), d("0")] {
         for (tot, cv) in [(false, d("3")), (true, d("6")), (false, d("0")), (true, d("-6")), (false, d("-3"))] {
-            shapes.push(Post { account: "", amount: Some((v, "X")), cost: Some((tot, cv, "Y")), assertion: None });
+            shapes.push(Post { account: "", amount: Some((v, "X")), cost: Some((tot, cv, "Y")), lot: None, assertion: None });
         }
     }
-    shapes.push(Post { account: "", amount: Some((d("2"), "X")), cost: Some((false, d("3"), "X")), assertion: None });
+    shapes.push(Post { account: "", amount: Some((d("2"), "X")), cost: Some((false, d("3"), "X")), lot: None, assertion: None });
+    // lot prices, alone and together with a cost (the lot price wins)
+    for v in [d("2"), d("-2")] {
+        for (tot, lv) in [(false, d("4")), (true, d("8")), (false, d("0"))] {
+            shapes.push(Post { account: "", amount: Some((v, "X")), cost: None, lot: Some((tot, lv, "Y")), assertion: None });
+            shapes.push(Post { account: "", amount: Some((v, "X")), cost: Some((false, d("3"), "Y")), lot: Some((tot, lv, "Y")), assertion: None });
+        }
+    }
     // omitted amount, assignments, assertions
-    shapes.push(Post { account: "", amount: None, cost: None, assertion: None });
+    shapes.push(Post { account: "", amount: None, cost: None, lot: None, assertion: None });
     for (x, c) in [(d("7"), Some("X")), (d("0"), Some("X")), (d("0"), None), (d("3"), Some("Y")), (d("10"), Some("X"))] {
-        shapes.push(Post { account: "", amount: None, cost: None, assertion: Some((x, c)) });
-        shapes.push(Post { account: "", amount: Some((d("5"), "X")), cost: None, assertion: Some((x, c)) });
-        shapes.push(Post { account: "", amount: Some((d("-5"), "X")), cost: None, assertion: Some((x, c)) });
+        shapes.push(Post { account: "", amount: None, cost: None, lot: None, assertion: Some((x, c)) });
+        shapes.push(Post { account: "", amount: Some((d("5"), "X")), cost: None, lot: None, assertion: Some((x, c)) });
+        shapes.push(Post { account: "", amount: Some((d("-5"), "X")), cost: None, lot: None, assertion: Some((x, c)) });
     }
     let histories: Vec<Vec<Txn>> = vec![
         vec![],
         vec![vec![
-            Post { account: "A", amount: Some((d("5"), "X")), cost: None, assertion: None },
-            Post { account: "E", amount: Some((d("-5"), "X")), cost: None, assertion: None },
+            Post { account: "A", amount: Some((d("5"), "X")), cost: None, lot: None, assertion: None },
+            Post { account: "E", amount: Some((d("-5"), "X")), cost: None, lot: None, assertion: None },
         ]],
         vec![vec![
-            Post { account: "A", amount: Some((d("5"), "X")), cost: None, assertion: None },
-            Post { account: "A", amount: Some((d("3"), "Y")), cost: None, assertion: None },
-            Post { account: "E", amount: None, cost: None, assertion: None },
+            Post { account: "A", amount: Some((d("5"), "X")), cost: None, lot: None, assertion: None },
+            Post { account: "A", amount: Some((d("3"), "Y")), cost: None, lot: None, assertion: None },
+            Post { account: "E", amount: None, cost: None, lot: None, assertion: None },
         ]],
     ];
     let third: Vec<Option<Post>> = if thorough {
@@ -315,7 +340,7 @@ pub fn sweep(thorough: bool, panic_only: bool) -> (u64, Vec<(String, String)>) {
         }
         v
     } else {
-        vec![None, Some(Post { account: "", amount: None, cost: None, assertion: None }), Some(Post { account: "", amount: Some((d("-1"), "Y")), cost: None, assertion: None })]
+        vec![None, Some(Post { account: "", amount: None, cost: None, lot: None, assertion: None }), Some(Post { account: "", amount: Some((d("-1"), "Y")), cost: None, lot: None, assertion: None })]
     };
     for h in &histories {
         for p1 in &shapes {
@@ -346,14 +371,14 @@ pub fn sweep(thorough: bool, panic_only: bool) -> (u64, Vec<(String, String)>) {
                     for third in [None, Some((d("0.004"), "Y")), Some((d("-10"), "X"))] {
                         for omitted in [false, true] {
                             let mut t: Txn = vec![
-                                Post { account: "A", amount: Some((*v1, c1)), cost: None, assertion: None },
-                                Post { account: "B", amount: Some((*v2, c2)), cost: None, assertion: None },
+                                Post { account: "A", amount: Some((*v1, c1)), cost: None, lot: None, assertion: None },
+                                Post { account: "B", amount: Some((*v2, c2)), cost: None, lot: None, assertion: None },
                             ];
                             if let Some((v, c)) = third {
-                                t.push(Post { account: "C", amount: Some((v, c)), cost: None, assertion: None });
+                                t.push(Post { account: "C", amount: Some((v, c)), cost: None, lot: None, assertion: None });
                             }
                             if omitted {
-                                t.push(Post { account: "D", amount: None, cost: None, assertion: None });
+                                t.push(Post { account: "D", amount: None, cost: None, lot: None, assertion: None });
                             }
                             evaluated += 1;
                             if let Some(b) = check(&[t], &["Y"]).filter(|b| !panic_only || b.1.contains("panicked")) {
